@@ -90,6 +90,9 @@ def gen_iface(g, k):
     for j in range(r.randint(0, 4)):
         t = g.field_type(budget=40, val_only=True)
         p = {'fn': word_name(r, f'p{j}'), 'ty': t, 'emits': r.choice(EMITS)}
+        if r.random() < 0.4:
+            # the same property name on several interfaces (of one object, when they are registered together)
+            p['fn'] = f'p{j}_common'
         p['member'] = pascal(p['fn'])
         acc = r.choice(['rw', 'rw', 'rw', 'r', 'w'])
         if p['emits'] == 'const':
@@ -101,17 +104,28 @@ def gen_iface(g, k):
         p['read'], p['write'] = 'r' in acc, 'w' in acc
         p['rejects'] = p['write'] and r.random() < 0.4
         p['getter_fallible'] = p['read'] and r.random() < 0.2
+        # a setter taking &self, the value behind a Mutex (dispatched without the interface's write lock)
+        p['interior'] = p['write'] and r.random() < 0.4
         p['doc'] = r.choice(DOCS) if r.random() < 0.4 else None
         I.props.append(p)
     return I
+
+
+def fty(p):
+    return f'std::sync::Mutex<{p["ty"].rust}>' if p['interior'] else p['ty'].rust
+
+
+def finit(p, rs):
+    d = f'derived({rstr(rs + "." + p["member"] + "|init")})'
+    return f'std::sync::Mutex::new({d})' if p['interior'] else d
 
 
 def emit_iface(g, I):
     o = g.out
     rs = I.rs
     # ---- server side ----------------------------------------------------------------------------
-    o.append(f'pub struct {rs} {{ pub log: Log, pub count: u32, ' + ''.join(f'pub {p["fn"]}: {p["ty"].rust}, ' for p in I.props) + '}')
-    o.append(f'impl {rs} {{ pub fn new(log: Log) -> Self {{ {rs} {{ log, count: 0, ' + ''.join(f'{p["fn"]}: derived({rstr(rs + "." + p["member"] + "|init")}), ' for p in I.props) + '} } }')
+    o.append(f'pub struct {rs} {{ pub log: Log, pub count: u32, ' + ''.join(f'pub {p["fn"]}: {fty(p)}, ' for p in I.props) + '}')
+    o.append(f'impl {rs} {{ pub fn new(log: Log) -> Self {{ {rs} {{ log, count: 0, ' + ''.join(f'{p["fn"]}: {finit(p, rs)}, ' for p in I.props) + '} } }')
     attrs = f'name = {rstr(I.name)}' + ('' if I.spawn else ', spawn = false')
     o.append(f'#[zbus::interface({attrs})]')
     o.append(f'impl {rs} {{')
@@ -177,17 +191,20 @@ def emit_iface(g, I):
                 o.append(f'    #[doc = {rstr(p["doc"])}]')
             o.append(f'    #[zbus(property{pa})]')
             first = False
+            rd = f'self.{p["fn"]}.lock().unwrap().clone()' if p['interior'] else f'self.{p["fn"]}.clone()'
             if p['getter_fallible']:
-                o.append(f'    fn {p["fn"]}(&self) -> zbus::fdo::Result<{t}> {{ Ok(self.{p["fn"]}.clone()) }}')
+                o.append(f'    fn {p["fn"]}(&self) -> zbus::fdo::Result<{t}> {{ Ok({rd}) }}')
             else:
-                o.append(f'    fn {p["fn"]}(&self) -> {t} {{ self.{p["fn"]}.clone() }}')
+                o.append(f'    fn {p["fn"]}(&self) -> {t} {{ {rd} }}')
         if p['write']:
             o.append('    #[zbus(property)]')
             lab = f'let label = format!("{rs}.{p["member"]}|set|{{}}", lbl(&[v.to_r()])); self.log.lock().unwrap().push(label.clone());'
+            slf = '&self' if p['interior'] else '&mut self'
+            wr = f'*self.{p["fn"]}.lock().unwrap() = v;' if p['interior'] else f'self.{p["fn"]} = v;'
             if p['rejects']:
-                o.append(f'    fn set_{p["fn"]}(&mut self, v: {t}) -> zbus::fdo::Result<()> {{ {lab} if fails(&label).is_some() {{ return Err(zbus::fdo::Error::InvalidArgs("rejected".into())); }} self.{p["fn"]} = v; Ok(()) }}')
+                o.append(f'    fn set_{p["fn"]}({slf}, v: {t}) -> zbus::fdo::Result<()> {{ {lab} if fails(&label).is_some() {{ return Err(zbus::fdo::Error::InvalidArgs("rejected".into())); }} {wr} Ok(()) }}')
             else:
-                o.append(f'    fn set_{p["fn"]}(&mut self, v: {t}) {{ {lab} self.{p["fn"]} = v; }}')
+                o.append(f'    fn set_{p["fn"]}({slf}, v: {t}) {{ {lab} {wr} }}')
     for s in I.signals:
         if s['doc']:
             o.append(f'    #[doc = {rstr(s["doc"])}]')
@@ -232,8 +249,14 @@ def emit_iface(g, I):
         o.append(f'fn {lo}_p{j}_init() -> RVal {{ derived::<{t}>({rstr(rs + "." + p["member"] + "|init")}).to_r() }}')
         o.append(f'fn {lo}_p{j}_gen(src: &mut Src) -> (RVal, String) {{ let mut fuel = 8u32; let v: {t} = Gen::gen(src, &mut fuel); (v.to_r(), format!("{rs}.{p["member"]}|set|{{}}", lbl(&[v.to_r()]))) }}')
     # proxy operations: op index space = methods, then property gets, then property sets
-    o.append(f"fn {lo}_px<'a>(conn: &'a zbus::Connection, path: String, op: usize, bytes: Vec<u8>) -> BoxFut<'a, Result<PxOut, String>> {{ Box::pin(async move {{")
-    o.append(f'    let p = {rs}PProxy::builder(conn).path(path).map_err(|e| e.to_string())?.build().await.map_err(|e| format!("building the proxy failed: {{e}}"))?;')
+    o.append(f"fn {lo}_px<'a>(conn: &'a zbus::Connection, path: String, op: usize, bytes: Vec<u8>, ctx: PxCtx) -> BoxFut<'a, Result<PxOut, String>> {{ Box::pin(async move {{")
+    o.append(f'    let kept: Option<{rs}PProxy<\'static>> = ctx.slots.as_ref().and_then(|s| s.lock().unwrap().get({rstr(rs)}).and_then(|b| b.downcast_ref::<{rs}PProxy<\'static>>()).cloned());')
+    o.append('    let p = match kept { Some(p) => p, None => {')
+    o.append(f'        let b = {rs}PProxy::builder(conn).path(path).map_err(|e| e.to_string())?;')
+    o.append('        let b = match ctx.cache { 1 => b.cache_properties(zbus::proxy::CacheProperties::Yes), 2 => b.cache_properties(zbus::proxy::CacheProperties::No), _ => b };')
+    o.append(f'        let p: {rs}PProxy<\'static> = b.build().await.map_err(|e| format!("building the proxy failed: {{e}}"))?;')
+    o.append(f'        if let Some(s) = &ctx.slots {{ s.lock().unwrap().insert({rstr(rs)}, Box::new(p.clone())); }}')
+    o.append('        p } };')
     o.append('    let mut src = Src::new(&bytes); let src = &mut src; let mut fuel = 8u32;')
     o.append('    match op {')
     op = 0
@@ -307,7 +330,7 @@ def entry(I):
     e.append('            ],')
     e.append('            props: vec![')
     for j, p in enumerate(I.props):
-        e.append(f'                PropEntry {{ name: {rstr(p["member"])}, sig: {rstr(p["ty"].sig)}, read: {"true" if p["read"] else "false"}, write: {"true" if p["write"] else "false"}, emits: {rstr(p["emits"])}, rejects: {"true" if p["rejects"] else "false"}, init: {lo}::{lo}_p{j}_init, gen_val: {lo}::{lo}_p{j}_gen, doc: {("Some(%s)" % rstr(p["doc"])) if p["doc"] else "None"} }},')
+        e.append(f'                PropEntry {{ name: {rstr(p["member"])}, sig: {rstr(p["ty"].sig)}, read: {"true" if p["read"] else "false"}, write: {"true" if p["write"] else "false"}, emits: {rstr(p["emits"])}, rejects: {"true" if p["rejects"] else "false"}, interior: {"true" if p["interior"] else "false"}, init: {lo}::{lo}_p{j}_init, gen_val: {lo}::{lo}_p{j}_gen, doc: {("Some(%s)" % rstr(p["doc"])) if p["doc"] else "None"} }},')
     e.append('            ],')
     e.append('            signals: vec![')
     for s in I.signals:
@@ -323,7 +346,7 @@ def entry(I):
 def emit(g, n):
     o = g.out
     o.append('use crate::genval::{body_of, derived, lbl};')
-    o.append('use crate::ifcheck::{custom_err, fails, fdo_err, outcome, px_result, BoxFut, CallSpec, ExpErr, GErr, IfaceEntry, Log, MethodEntry, PropEntry, PxOut, SignalEntry};')
+    o.append('use crate::ifcheck::{custom_err, fails, fdo_err, outcome, px_result, BoxFut, CallSpec, ExpErr, GErr, IfaceEntry, Log, MethodEntry, PropEntry, PxCtx, PxOut, SignalEntry};')
     o.append('use crate::sched::yield_now;')
     o.append('')
     ifaces = [gen_iface(g, k) for k in range(n)]
